@@ -1,5 +1,5 @@
 (* non-vacuity for C03: two exons of one transcript give a derived transcript and gene spanning min..max *)
-From GV Require Import Base.Prelude Base.PyStr Model.Bins Model.DB Model.Parser Model.Import Model.GtfSpec Proofs.C03Proofs Proofs.C03End Proofs.C03Ids.
+From GV Require Import Base.Prelude Base.PyStr Model.Bins Model.DB Model.Parser Model.Import Model.GtfSpec Proofs.C03Proofs Proofs.C03End Proofs.C03Ids Proofs.C03Pop.
 Open Scope Z_scope.
 Definition ex (s e : Z) : row := mkRow [] (U "chr1"%bs) (U "s"%bs) (U "exon"%bs) (Some s) (Some e) [46%N] [43%N] [46%N]
   [(GENE_ID, [U "G"%bs]); (TRANSCRIPT_ID, [U "T"%bs])] [] None.
@@ -37,4 +37,31 @@ Proof.
   split; [vm_compute; repeat constructor; cbn; intuition discriminate|].
   intros t gn Ht Hg. vm_compute in Ht, Hg.
   repeat (destruct Ht as [Ht|Ht]; [subst t; repeat (destruct Hg as [Hg|Hg]; [subst gn; discriminate|]); destruct Hg|]). destruct Ht.
+Qed.
+
+(* the domain of C03_import_end_to_end is inhabited by the interleaved two-gene file above, and the import succeeds *)
+Example C03_whole_import_inhabited :
+  (forall f, In f lines -> ordinary f) /\
+  (forall f, In f lines -> exists t gn, first_val (g_tkey gcfg) f = Some t /\ first_val (g_gkey gcfg) f = Some gn /\ t <> gn) /\
+  (forall p f, In p (assign lines []) -> In f lines ->
+     first_val (g_tkey gcfg) f <> Some (snd p) /\ first_val (g_gkey gcfg) f <> Some (snd p)) /\
+  (forall f f' v, In f lines -> In f' lines -> first_val (g_tkey gcfg) f = Some v -> first_val (g_gkey gcfg) f' <> Some v) /\
+  (forall f f', In f lines -> In f' lines -> first_val (g_tkey gcfg) f = first_val (g_tkey gcfg) f' ->
+     first_val (g_gkey gcfg) f = first_val (g_gkey gcfg) f') /\
+  (exists st', import_gtf (fun _ _ => None) gcfg SError [] (gtf_spec gcfg) lines empty_st = Ok st') /\
+  expected_extent gcfg TRANSCRIPT_ID (U "T1"%bs) lines = Some (10, 60, [43%N], U "chr1"%bs) /\
+  expected_extent gcfg GENE_ID (U "G1"%bs) lines = Some (5, 70, [43%N], U "chr1"%bs).
+Proof.
+  split; [|split; [|split; [|split; [|split; [|split; [|split]]]]]].
+  - intros f Hf. repeat (destruct Hf as [Hf|Hf]; [subst f; split; reflexivity|]). destruct Hf.
+  - intros f Hf. repeat (destruct Hf as [Hf|Hf]; [subst f; eexists; eexists; split; [reflexivity|split; [reflexivity|discriminate]]|]). destruct Hf.
+  - intros p f Hp Hf. vm_compute in Hp.
+    repeat (destruct Hp as [Hp|Hp]; [subst p; repeat (destruct Hf as [Hf|Hf]; [subst f; split; vm_compute; discriminate|]); destruct Hf|]). destruct Hp.
+  - intros f f' v Hf Hf'.
+    repeat (destruct Hf as [Hf|Hf]; [subst f; repeat (destruct Hf' as [Hf'|Hf']; [subst f'; vm_compute; intros E; inversion E; subst v; discriminate|]); destruct Hf'|]). destruct Hf.
+  - intros f f' Hf Hf'.
+    repeat (destruct Hf as [Hf|Hf]; [subst f; repeat (destruct Hf' as [Hf'|Hf']; [subst f'; vm_compute; intros E; first [reflexivity|discriminate E]|]); destruct Hf'|]). destruct Hf.
+  - eexists. vm_compute. reflexivity.
+  - vm_compute. reflexivity.
+  - vm_compute. reflexivity.
 Qed.
